@@ -312,6 +312,18 @@ class Layer(object):
         return None
 
     @classmethod
+    def instcount_owner(cls):
+        """Class holding the instance counter (INSTCOUNT) of this layer class.
+
+        Instance names are '<alias>#<number>', so the classes of a hierarchy
+        that carry the same alias must share one counter: it is kept in the
+        base-most of them. (hasattr()/getattr() on a derived class read the
+        counter of its base class and setattr() then gave the derived class a
+        counter of its own: both handed out the same numbers.)
+        """
+        return [c for c in cls.__mro__ if getattr(c, 'alias', None) == cls.alias][-1]
+
+    @classmethod
     def add(cls, clazz, input=False):
         """Add a sub-layer class.
         """
@@ -406,13 +418,9 @@ class Layer(object):
         # Make sure the class inherits from `ContextualLayer` class
         if issubclass(contextual_clazz, ContextualLayer):
             # Build instance number
-            if hasattr(contextual_clazz, 'INSTCOUNT'):
-                instcount = getattr(contextual_clazz, 'INSTCOUNT')
-                instcount += 1
-                setattr(contextual_clazz, 'INSTCOUNT', instcount)
-            else:
-                setattr(contextual_clazz, 'INSTCOUNT', 0)
-                instcount = 0
+            owner = contextual_clazz.instcount_owner()
+            instcount = vars(owner).get('INSTCOUNT', -1) + 1
+            setattr(owner, 'INSTCOUNT', instcount)
             instance_name = '%s#%d' % (contextual_clazz.alias, instcount)
 
             # Create layer with this new instance name.
@@ -700,8 +708,9 @@ class Layer(object):
                 # the next instantiate() does not reuse (and replace) one of them
                 sublayer_clazz = self.LAYERS[sublayer_class]
                 number = sublayer[idx+1:]
-                if number.isdigit() and getattr(sublayer_clazz, 'INSTCOUNT', -1) < int(number):
-                    setattr(sublayer_clazz, 'INSTCOUNT', int(number))
+                owner = sublayer_clazz.instcount_owner()
+                if number.isdigit() and vars(owner).get('INSTCOUNT', -1) < int(number):
+                    setattr(owner, 'INSTCOUNT', int(number))
 
                 # instantiate and initialize
                 sublayer_obj = self.create_layer(sublayer_clazz, sublayer)
